@@ -383,6 +383,8 @@ class Controller:
             yield m
 
     def plan(self, prefix="plan"):
+        if prefix == "plan2":
+            self.tokens_at_second_start = None
         k = 0
         resp = None
         thrown = None
@@ -393,6 +395,8 @@ class Controller:
                     if d is None or d[1] == "reraise":
                         raise thrown
                     thrown = None
+                if prefix == "plan2" and self.tokens_at_second_start is None:
+                    self.tokens_at_second_start = len(self.RE.dispatcher._token_mapping)
                 d = self.next_decision([prefix + "#"])
                 choice = d[1] if d else "return"
                 if choice == "return":
@@ -462,11 +466,13 @@ class _Mot:
     ledger = None
 
     def set(self, *a, **k):
+        LEDGER.append(("mot", "set"))
         if _Mot.ledger is not None:
             _Mot.ledger("set")
         return _Status()
 
     def stop(self, *, success=False):
+        LEDGER.append(("mot", "stop"))
         if _Mot.ledger is not None:
             _Mot.ledger("stop")
 
@@ -474,21 +480,88 @@ class _Mot:
 _MOT = _Mot()
 
 
+LEDGER = []      # (device, call) in call order, for the C06 clauses
+
+
 class _Dev:
     name = "dev"
     parent = None
 
     def stage(self):
+        LEDGER.append(("dev", "stage"))
         return [self]
 
     def unstage(self):
+        LEDGER.append(("dev", "unstage"))
         return [self]
+
+
+class _Fly:
+    name = "fly"
+    parent = None
+
+    def kickoff(self):
+        LEDGER.append(("fly", "kickoff"))
+        return _Status()
+
+    def complete(self):
+        return _Status()
+
+    def describe_collect(self):
+        return {"fly_stream": {"fly_x": {"dtype": "number", "shape": [], "source": "x"}}}
+
+    def collect(self):
+        LEDGER.append(("fly", "collect"))
+        return iter(())
+
+    def read_configuration(self):
+        return {}
+
+    def describe_configuration(self):
+        return {}
+
+
+class _Sig:
+    name = "sig"
+    parent = None
+
+    def __init__(self):
+        self.cbs = []
+
+    def read(self):
+        return {"sig": {"value": 1, "timestamp": 0}}
+
+    def describe(self):
+        return {"sig": {"dtype": "number", "shape": [], "source": "x"}}
+
+    def read_configuration(self):
+        return {}
+
+    def describe_configuration(self):
+        return {}
+
+    def subscribe(self, cb, **kw):
+        self.cbs.append(cb)
+
+    def clear_sub(self, cb):
+        if cb in self.cbs:
+            self.cbs.remove(cb)
+
+
+_FLY, _SIG = _Fly(), _Sig()
+
+
+def _callback(name, doc):
+    pass
 
 
 _DEV = _Dev()
 
 MESSAGES = {
     "set": lambda: Msg("set", _MOT, 1),
+    "kickoff": lambda: Msg("kickoff", _FLY), "collect": lambda: Msg("collect", _FLY),
+    "monitor": lambda: Msg("monitor", _SIG), "unmonitor": lambda: Msg("unmonitor", _SIG),
+    "subscribe": lambda: Msg("subscribe", None, _callback, "all"),
     "stage": lambda: Msg("stage", _DEV), "unstage": lambda: Msg("unstage", _DEV),
     "custom": lambda: Msg("custom"), "custom_async": lambda: Msg("custom_async"), "null": lambda: Msg("null"),
     "checkpoint": lambda: Msg("checkpoint"), "clear_checkpoint": lambda: Msg("clear_checkpoint"),
@@ -513,6 +586,8 @@ def install_shim(ctl):
 
 
 def run_native(decisions, msgs):
+    del LEDGER[:]
+    del _SIG.cbs[:]
     """-> dict(calls=[(name, outcome, state after, ...)], docs=[...], diverged=..., log=[...])"""
     ctl = Controller(decisions, msgs)
     install_shim(ctl)
@@ -545,6 +620,9 @@ def run_native(decisions, msgs):
                              "trace_len": len(ctl.trace), "uids": list(RE._run_start_uids)})
         if str(RE.state) == "idle":
             ctl.doomed = None
+            out["calls"][-1]["ledger"] = list(LEDGER)
+            out["calls"][-1]["monitors_left"] = len(_SIG.cbs)
+            out["calls"][-1]["tokens"] = len(RE.dispatcher._token_mapping)
     plan = ctl.plan()
     ctl.submit(lambda: RE(plan))
     r = ctl.schedule()
@@ -578,6 +656,7 @@ def run_native(decisions, msgs):
     out["doomed_bad"] = ctl.doomed_bad
     out["c04_bad"] = ctl.c04_bad
     out["suspend_plans"] = ctl.suspend_plans
+    out["tokens_at_second_start"] = getattr(ctl, "tokens_at_second_start", None) or 1
     out["c11_stop_bad"] = ctl.c11_stop_bad
     out["log"] = ctl.log
     out["plan_exc"] = getattr(ctl, "plan_exc", None)
@@ -744,6 +823,28 @@ def _violations(obligation, res):
                         phase = None
         if tag.startswith("ensures[at suspension every device that was moved"):
             bad.extend(res.get("c11_stop_bad", []))
+    elif tag.startswith("ensures[at idle every"):
+        for c in res["calls"]:
+            if c["state"] != "idle" or "ledger" not in c:
+                continue
+            led = c["ledger"]
+
+            def last(dev, calls):
+                xs = [x[1] for x in led if x[0] == dev and x[1] in calls]
+                return xs[-1] if xs else None
+            if "staged during the call has been unstaged" in tag and last("dev", ("stage", "unstage")) == "stage":
+                bad.append(f"{c['call']} ended idle with the device left staged (ledger: {led})")
+            if "told to stop after its last set" in tag and last("mot", ("set", "stop")) == "set":
+                bad.append(f"{c['call']} ended idle without a stop() after the motor's last set (ledger: {led})")
+            if "kicked-off flyer has been collected" in tag and last("fly", ("kickoff", "collect")) == "kickoff":
+                bad.append(f"{c['call']} ended idle with a kicked-off flyer that was neither collected nor attempted (ledger: {led})")
+            if "monitor subscription installed by a run has been removed" in tag and c.get("monitors_left"):
+                bad.append(f"{c['call']} ended idle with {c['monitors_left']} monitor callback(s) still subscribed")
+    elif tag.startswith("ensures[per-call subscriptions are removed"):
+        base = 1                    # the replay harness' own document collector
+        seconds = [c for c in res["calls"] if c.get("second")]
+        if seconds and res.get("tokens_at_second_start", base) > base:
+            bad.append(f"{res['tokens_at_second_start'] - base} per-call subscription(s) of the previous call were still registered when the next plan started")
     elif tag.startswith("invariant[the cache holds exactly") or tag.startswith("requires[what is handed to the rewind"):
         bad.extend(res.get("c04_bad", []))
     elif "no checkpoint in effect never leaves the engine paused" in tag or "no further plan message is executed before the plan's cleanup" in tag:
